@@ -142,3 +142,40 @@ pub proof fn alg_comm(a: real, b: real)
 {
     assert(a * b == b * a) by(nonlinear_arith);
 }
+
+/// sqrt(2 pi) is a positive real (so dividing by it is defined)
+#[verifier::external_body]
+pub proof fn axiom_sqrt_2pi_pos()
+    ensures r_sqrt(2real * r_pi()) > 0real,
+{ }
+
+// ---- exp / ln / normal cdf / inverse cdf (second order): r.hess = c*(h + 0.5*g g)  etc.
+pub proof fn alg_exp2(c: real, h: real, gn: real, gk: real)
+    ensures c * (h + 0.5real * (gn * gk)) == c * h + c * gn * gk / 2real,
+{
+    assert(c * (h + 0.5real * (gn * gk)) == c * h + c * gn * gk / 2real) by(nonlinear_arith);
+}
+
+/// ln: s*h - ((gn*gk)*0.5)*(s*s) with s = 1/x  ==  (1/x)*h + (-1/(x*x))*gn*gk/2
+pub proof fn alg_ln2(x: real, h: real, gn: real, gk: real)
+    requires x != 0real,
+    ensures (1real / x) * h - ((gn * gk) * 0.5real) * ((1real / x) * (1real / x)) == (1real / x) * h + (-1real / (x * x)) * gn * gk / 2real,
+{
+    let s = 1real / x;
+    assert(s * s == 1real / (x * x)) by(nonlinear_arith) requires s == 1real / x, x != 0real;
+    let t = 1real / (x * x);
+    assert(-1real / (x * x) == -t) by(nonlinear_arith) requires t == 1real / (x * x), x != 0real;
+    alg_ln2_core(s, h, gn, gk, t);
+}
+pub proof fn alg_ln2_core(s: real, h: real, gn: real, gk: real, t: real)
+    ensures s * h - ((gn * gk) * 0.5real) * t == s * h + (-t) * gn * gk / 2real,
+{
+    assert(s * h - ((gn * gk) * 0.5real) * t == s * h + (-t) * gn * gk / 2real) by(nonlinear_arith);
+}
+
+/// cdf / icdf: s*h + ((0.5*s2)*(gn*gk))  ==  s*h + s2*gn*gk/2
+pub proof fn alg_cdf2(s: real, s2: real, h: real, gn: real, gk: real)
+    ensures s * h + (0.5real * s2) * (gn * gk) == s * h + s2 * gn * gk / 2real,
+{
+    assert(s * h + (0.5real * s2) * (gn * gk) == s * h + s2 * gn * gk / 2real) by(nonlinear_arith);
+}
